@@ -605,3 +605,30 @@ Proof.
   pose proof (wf_nodup _ (hist_of_wf ops)) as ND.
   unfold hkey. rewrite (In_lookup _ _ _ ND H1), (In_lookup _ _ _ ND H2). assumption.
 Qed.
+
+Lemma all_serializableb_sound G : all_serializableb G = true -> all_serializable G.
+Proof.
+  intros H t r L. apply lookup_In_pair in L. unfold all_serializableb in H.
+  rewrite forallb_forall in H. specialize (H _ L). cbn [snd] in H. apply iso_eqb_eq. assumption.
+Qed.
+
+Lemma model_refines_spec_l ops :
+  nongc_outs ops (outs ops) = snd (spec_run [] (remove_gc ops)) /\
+  hist_of ops = fst (spec_run [] (remove_gc ops)).
+Proof. split; [apply outs_spec|apply hist_of_spec]. Qed.
+Lemma oracle_c03_sound_l ops :
+  fcw_okb (hist_of ops) = true /\ ww_justified [] (combine ops (outs ops)) = true /\
+  stale_refused [] (combine ops (outs ops)) = true /\ epochs_ok [] (combine ops (outs ops)) = true /\
+  conforms [] (combine ops (outs ops)) = true.
+Proof.
+  repeat split; [apply fcw_oracle_l|apply ww_justified_l|apply stale_refused_l|apply epochs_ok_l|apply conforms_l].
+Qed.
+Lemma oracle_c04_sound_l ops :
+  sf_justified [] (combine ops (outs ops)) = true /\ stale_refused [] (combine ops (outs ops)) = true /\
+  nonoverlap_ok [] (combine ops (outs ops)) = true /\
+  (all_serializable (hist_of ops) ->
+   deps_forwardb (hist_of ops) = true /\ acyclicb (hist_of ops) = true /\ view_okb (hist_of ops) = true).
+Proof.
+  split; [apply sf_justified_l|]. split; [apply stale_refused_l|]. split; [apply nonoverlap_ok_l|].
+  intro AS. split; [apply deps_forwardb_l; assumption|]. split; [apply acyclicb_l; assumption|apply view_okb_l; assumption].
+Qed.
